@@ -14,6 +14,7 @@ ap.add_argument("--corpus", default="seeded")
 ap.add_argument("--runs", type=int, default=100000)
 ap.add_argument("--seed", type=int, default=1)
 ap.add_argument("--max-len", type=int, default=256)
+ap.add_argument("--oracle", default="totality", choices=["totality", "grammar"])
 args = ap.parse_args()
 
 try:
@@ -69,9 +70,42 @@ def check(q):
     return None
 
 
+def check_grammar(q):
+    """Membership oracle: reference VALID + well-typed => must compile; INVALID => must raise a JSONPathError."""
+    from vlib import accept  # noqa: PLC0415
+    from vlib.ref import abnf  # noqa: PLC0415
+
+    v, _, _ = accept.verdict(q)
+    if v not in ("VALID-WELLTYPED", abnf.INVALID):
+        return None
+    status, got = lib.compile_(q)
+    if v == "VALID-WELLTYPED":
+        state["compiled"] += 1
+        if status != "ok":
+            return f"refused-valid:{got['type']}:{got['frame']}:{got['str'].split(',')[0][:30]}"
+        return None
+    if status == "ok":
+        return "accepted-invalid"
+    return None
+
+
 def test_one_input(data):
     state["n"] += 1
     q = data.decode("utf-8", "ignore")
+    if args.oracle == "grammar":
+        if q.startswith("$") and len(q) > 3 and len(state["hashes"]) < 200000:
+            state["hashes"].add(h64(q))
+            if len(state["samples"]) < 20 and state["n"] % 5000 == 0:
+                state["samples"].append(q)
+        bucket = check_grammar(q)
+        if bucket is not None:
+            key = bucket if bucket != "accepted-invalid" else bucket + ":" + str(len(state["failures"]) % 40)
+            if key not in state["failures"] and len(state["failures"]) < 60:
+                state["failures"][key] = q
+                write_stats()
+        if state["n"] % 50000 == 0 or state["n"] >= args.runs - 1:
+            write_stats()
+        return
     if q.startswith("$") and len(q) > 3 and len(state["hashes"]) < 200000:
         state["hashes"].add(h64(q))
         if len(state["samples"]) < 20 and state["n"] % 5000 == 0:
